@@ -242,6 +242,21 @@ SPECS["C07"] = dict(
                        params={"quick": {"MAXREC": 2, "MAXRANGES": 2}, "thorough": {"MAXREC": 3, "MAXRANGES": 3}})],
 )
 
+SPECS["C19"] = dict(
+    level="model_checking",
+    engine="E3 evx (+E2 sched for prefetchCtl)",
+    state_based=True,
+    technique="exhaustive exploration of event orders (hits from 3 clients in 2 groups, refresh outcomes, clock ticks) on the real router+cache in a virtual-time bubble",
+    claim="For every sequence up to the depth bound of hits from clients in the same or different groups, refresh completions (renewed TTL, SERVFAIL, failure) and 1 s clock steps inside "
+          "the refresh window: every hit on a live entry is answered in the same reaction without waiting for the upstream, at most one refresh per (question, group) is ever in flight, "
+          "a successful refresh renews what later hits see, and a failed one leaves the old entry in service.",
+    trusted="scripted upstream; tcp seam; hits within one reaction are sequential at event granularity (lock-level interleavings of reserve/done are the E2 part).",
+    rule="see evidence rule written by the harness",
+    assumptions=[],
+    parts=[router_part("prefetch", "TestVerifC19", ["zz_verif_c19_test.go", "zz_verif_c07_test.go", "zz_verif_c08_test.go", "zz_verif_c03_test.go"],
+                       params={"quick": {"DEPTH": 5, "FAULTS": 2}, "thorough": {"DEPTH": 7, "FAULTS": 3}})],
+)
+
 
 # --------------------------------------------------------------------------------------------
 # Properties not (yet) claimed. Kept current: every property without a SPECS entry must be here.
